@@ -453,6 +453,8 @@ impl BTree {
     }
 
     pub fn create(pager: &mut Pager) -> Result<Self> {
+        #[cfg(nervusdb_verif)]
+        let _owner = nervusdb_api::verif::owner_scope("btree");
         let root = pager.allocate_page()?;
         let mut buf = [0u8; PAGE_SIZE];
         Page::new(&mut buf).init_leaf();
@@ -461,6 +463,8 @@ impl BTree {
     }
 
     pub fn insert(&mut self, pager: &mut Pager, key: &[u8], payload: u64) -> Result<()> {
+        #[cfg(nervusdb_verif)]
+        let _owner = nervusdb_api::verif::owner_scope("btree");
         let mut path: Vec<PathEntry> = Vec::new();
         let mut cur = self.root;
 
@@ -527,6 +531,8 @@ impl BTree {
     /// This implementation only modifies the leaf page containing the key.
     /// It does NOT yet implement page merging or rebalancing (MVP).
     pub fn delete(&mut self, pager: &mut Pager, key: &[u8], payload: u64) -> Result<bool> {
+        #[cfg(nervusdb_verif)]
+        let _owner = nervusdb_api::verif::owner_scope("btree");
         let mut cur = self.root;
         loop {
             let mut buf = pager.read_page(cur)?;
